@@ -22,7 +22,7 @@ CONSTANTS Langs,       \* subset of {"c", "cpp"}
           BaseSet,     \* "families": documented families; "commons": families x every value of the family-independent options
           MaxMut,      \* single-side option changes per behaviour (1: all ordered pairs differing in exactly one option)
           MaxBoth,     \* both-side option changes per behaviour (identical pairs of the neighbours of the bases)
-          HashBits     \* 32 = CRC-32 as implemented
+          HashBits     \* 32 = CRC-32 as implemented; 1 = a one-bit hash (negative control: collisions must be found)
 
 VARIABLES lang, a, b, nmut, nboth, ea, eb, defs, asrt, out
 vars == <<lang, a, b, nmut, nboth, ea, eb, defs, asrt, out>>
@@ -43,8 +43,8 @@ Bases(l) ==
     ELSE IF BaseSet = "families" THEN CppFamilies
     ELSE UNION {AllVectors("cpp", CommonKeys("cpp"), f) : f \in CppFamilies}
 
-RenderTable == TLCEval([x \in AllDocVals |-> Render(x, HashBits)])      \* evaluated once (TLC would re-evaluate a lazy function per use)
-R(x) == RenderTable[x]
+R(x) == IF HashBits = 32 THEN DocRender[x] ELSE DocRenderWeak[x]       \* tables of OptionGuardP, evaluated once by TLC
+ASSUME HashBits \in {1, 32}
 
 None == <<>>
 Some(x) == <<x>>
